@@ -354,3 +354,41 @@ func RandomStatement(rng *rand.Rand, data []*triple.Triple) string {
 	}
 	return q.Text()
 }
+
+// SomeGraphs draws n graph names (with the occasional repetition).
+func SomeGraphs(rng *rand.Rand, n int) []string { return someGraphs(rng, n) }
+
+// ConstructStmtMatching draws a well-typed CONSTRUCT / DECONSTRUCT whose WHERE
+// pattern is built from stored triples (so it usually has solutions) and whose
+// templates use no explicit blank node.
+func ConstructStmtMatching(rng *rand.Rand, kind string, data []*triple.Triple) *bq.Stmt {
+	where := MatchingPattern(rng, data, 1+rng.Intn(2))
+	s := &bq.Stmt{Kind: kind, Where: where, In: someGraphs(rng, 1+rng.Intn(2)), Out: someGraphs(rng, 1+rng.Intn(2))}
+	for tries := 0; tries < 20; tries++ {
+		s.Templates = Templates(rng, where, kind == "construct", true)
+		ok := true
+		for _, t := range s.Templates {
+			if t.S.Kind == bq.KBlank {
+				ok = false
+			}
+			for _, p := range t.Pairs {
+				if p.O.Kind == bq.KBlank {
+					ok = false
+				}
+			}
+		}
+		if ok {
+			break
+		}
+	}
+	if kind == "deconstruct" {
+		// prefer templates that mirror the pattern so that something is removed
+		if rng.Intn(2) == 0 {
+			c := where[0]
+			if c.S.Kind == bq.KBinding && (c.P.Kind == bq.KBinding || c.P.Kind == bq.KPred) && (c.O.Kind == bq.KBinding || c.O.Const()) {
+				s.Templates = []bq.Template{{S: c.S, Pairs: []bq.Pair{{P: c.P, O: c.O}}}}
+			}
+		}
+	}
+	return s
+}
